@@ -60,6 +60,9 @@ class ClassRef:
                     for t in st.targets:
                         if isinstance(t, ast.Name):
                             m[mangle(t.id, self.name)] = st
+                elif isinstance(st, (ast.Import, ast.ImportFrom)):
+                    for a in st.names:
+                        m[a.asname or a.name.split('.')[0]] = st
             self._members = m
         return self._members
 
@@ -431,7 +434,7 @@ class Interp:
             return m
         if name in ExcClass.HIER or name.endswith('Error') or name.endswith('Warning'):
             return ExcClass(name)
-        raise PyExc('NameError', name)
+        raise Unsupported('unknown global name %r (no model)' % name)
 
     # ---- names ------------------------------------------------------------
     def load_name(self, name, frame):
@@ -634,6 +637,8 @@ class Interp:
                 return fr
             if isinstance(st, ast.ClassDef):
                 return self.classref(cls.module, st)
+            if isinstance(st, (ast.Import, ast.ImportFrom)):
+                return self.import_binding(cls.module, st, name)
             # class level assignment: evaluate in class-body env
             frame = Frame(FuncRef(cls.module, ast.FunctionDef(name='<classbody>', body=[], args=None), owner=cls), {})
             frame.classbody = cls
